@@ -472,7 +472,7 @@ func checkGetSetErr(c GetSetErr) error {
 }
 
 func TestC18(t *testing.T) {
-	h := start(t, "C18", "a valid vector (C06 generator) with exactly one defect of a labelled kind at a generated position (header: removed / other version's / one byte changed / lower-cased / truncated / prefixed; illegal value; v3: base metric removed, metric duplicated anywhere, unknown abbreviation inserted or substituted for an optional one; v2/v4: adjacent swap, move, in-place and distant duplication, unknown abbreviation inserted or substituted, cut inside a group), expected error known by construction; plus Get/Set with unknown abbreviations and illegal values; every case is a rejected near-miss, distinct by defective string")
+	h := start(t, "C18", "a valid vector (C06 generator) with exactly one defect of a labelled kind at a generated position (header: removed / other version's / one byte changed / lower-cased / truncated / prefixed; illegal value; v3: base metric removed, metric duplicated anywhere, unknown abbreviation inserted or substituted for an optional one; v2/v4: adjacent swap, move, in-place and distant duplication, unknown abbreviation inserted or substituted, cut inside a group), expected error known by construction; plus Get/Set with unknown abbreviations and illegal values (the returned error is inspected again after later failing calls); every case is a rejected near-miss, distinct by defective string")
 	h.R.Assume("only the error classes the statement names unambiguously are asserted; empty elements, a trailing '/', bytes after an intact v4 header and multi-defect strings are left to C01 (rejection only)")
 	n := env.Scale(120000, 300000)
 	if env.Shards > 1 {
